@@ -163,6 +163,735 @@ def X(mk, *a, **kw):
     return lambda b: dict(X=getattr(b, mk)(*a, **kw))
 
 
+# ---- tensor ---------------------------------------------------------------------------------------------
+def _tensor_table():
+    c = "tensor"
+    XT = X("T")
+    both = lambda b: dict(X=b.T(), Y=b.T(1))
+    reg(c, "__init__", "copy=True", lambda b: dict(d=b.arr()), lambda o: o.d is not None and __import__("pyttb").tensor(o.d, copy=True))
+    reg(c, "__init__", "copy=True,shape", lambda b: dict(d=b.arr().reshape(-1, order="F")), lambda o, b: b.ttb.tensor(o.d, b.shape, copy=True))
+    reg(c, "__init__", "copy=False", lambda b: dict(d=b.arr()), lambda o, b: b.ttb.tensor(o.d, copy=False), kind="nocopy")
+    reg(c, "__init__", "copy=False,C-order", lambda b: dict(d=np.ascontiguousarray(b.arr())), lambda o, b: b.ttb.tensor(o.d, copy=False), kind="nocopy")
+    reg(c, "collapse", "all", XT, lambda o: o.X.collapse(), kind="scalar")
+    reg(c, "collapse", "single", lambda b: dict(X=b.T(), dims=np.array([0])), lambda o: o.X.collapse(o.dims))
+    reg(c, "collapse", "multiple", lambda b: dict(X=b.T(), dims=np.array([0, 1])), lambda o: o.X.collapse(o.dims, np.max))
+    reg(c, "contract", "default", XT, lambda o: o.X.contract(0, 1), shapes=CUBE)
+    reg(c, "contract", "to-scalar", XT, lambda o: o.X.contract(0, 1), shapes=[(2, 2)], kind="scalar")
+    reg(c, "copy", "default", XT, lambda o: o.X.copy())
+    reg(c, "__deepcopy__", "default", XT, lambda o: _copy.deepcopy(o.X))
+    reg(c, "data", "attr", XT, lambda o: o.X.data, kind="attr")
+    reg(c, "shape", "attr", XT, lambda o: o.X.shape, kind="attr")
+    reg(c, "double", "default", XT, lambda o: o.X.double())
+    reg(c, "exp", "default", XT, lambda o: o.X.exp())
+    reg(c, "find", "default", XT, lambda o: o.X.find())
+    reg(c, "from_function", "default", lambda b: dict(), lambda o, b: b.ttb.tensor.from_function(lambda s: np.ones(s, order="F"), b.shape))
+    reg(c, "from_function", "handle-returns-held-array", lambda b: dict(d=b.arr()), lambda o, b: b.ttb.tensor.from_function(lambda s: o.d, b.shape), kind="nocopy")   # the handle hands its array over
+    reg(c, "full", "default", XT, lambda o: o.X.full())
+    reg(c, "innerprod", "tensor", both, lambda o: o.X.innerprod(o.Y), kind="scalar")
+    reg(c, "innerprod", "sptensor", lambda b: dict(X=b.T(), Y=b.S()), lambda o: o.X.innerprod(o.Y), kind="scalar")
+    reg(c, "innerprod", "ktensor", lambda b: dict(X=b.T(), Y=b.K()), lambda o: o.X.innerprod(o.Y), kind="scalar")
+    reg(c, "innerprod", "ttensor", lambda b: dict(X=b.T(), Y=b.TT()), lambda o: o.X.innerprod(o.Y), kind="scalar")
+    reg(c, "isequal", "tensor", both, lambda o: o.X.isequal(o.Y), kind="scalar")
+    reg(c, "isequal", "sptensor", lambda b: dict(X=b.T(), Y=b.S()), lambda o: o.X.isequal(o.Y), kind="scalar")
+    reg(c, "issymmetric", "default", XT, lambda o: o.X.issymmetric(), shapes=CUBE, kind="scalar")
+    reg(c, "issymmetric", "grps", lambda b: dict(X=b.T(), g=np.array([0, 1])), lambda o: o.X.issymmetric(o.g), shapes=CUBE, kind="scalar")
+    reg(c, "issymmetric", "details", XT, lambda o: o.X.issymmetric(return_details=True), shapes=CUBE)
+    for nm in ("logical_and", "logical_or", "logical_xor"):
+        reg(c, nm, "tensor", both, lambda o, nm=nm: getattr(o.X, nm)(o.Y))
+        reg(c, nm, "scalar", XT, lambda o, nm=nm: getattr(o.X, nm)(1.0))
+    reg(c, "logical_not", "default", XT, lambda o: o.X.logical_not())
+    reg(c, "mask", "default", lambda b: dict(X=b.T(), W=b.W()), lambda o: o.X.mask(o.W))
+    reg(c, "mttkrp", "list,first", lambda b: dict(X=b.T(), U=b.fm()), lambda o: o.X.mttkrp(o.U, 0))
+    reg(c, "mttkrp", "list,last", lambda b: dict(X=b.T(), U=b.fm()), lambda o, b: o.X.mttkrp(o.U, b.N - 1))
+    reg(c, "mttkrp", "list,middle", lambda b: dict(X=b.T(), U=b.fm()), lambda o, b: o.X.mttkrp(o.U, 1))
+    reg(c, "mttkrp", "ktensor", lambda b: dict(X=b.T(), U=b.K()), lambda o: o.X.mttkrp(o.U, 0))
+    reg(c, "mttkrps", "list", lambda b: dict(X=b.T(), U=b.fm()), lambda o: o.X.mttkrps(o.U))
+    reg(c, "mttkrps", "ktensor", lambda b: dict(X=b.T(), U=b.K()), lambda o: o.X.mttkrps(o.U))
+    for nm in ("ndims", "nnz", "order"):
+        reg(c, nm, "property", XT, lambda o, nm=nm: getattr(o.X, nm), kind="property")
+    reg(c, "norm", "default", XT, lambda o: o.X.norm(), kind="scalar")
+    reg(c, "nvecs", "r=1", XT, lambda o: o.X.nvecs(0, 1))
+    reg(c, "nvecs", "r=2,noflip", XT, lambda o: o.X.nvecs(0, 2, flipsign=False), shapes=NOSINGLE)
+    reg(c, "permute", "identity", lambda b: dict(X=b.T(), order=np.arange(b.N)), lambda o: o.X.permute(o.order))
+    reg(c, "permute", "reverse", lambda b: dict(X=b.T(), order=np.arange(b.N)[::-1].copy()), lambda o: o.X.permute(o.order))
+    reg(c, "permute", "cyclic", lambda b: dict(X=b.T(), order=np.roll(np.arange(b.N), 1)), lambda o: o.X.permute(o.order))
+    reg(c, "reshape", "same-shape", XT, lambda o, b: o.X.reshape(b.shape))
+    reg(c, "reshape", "to-vector", XT, lambda o, b: o.X.reshape((b.n,)))
+    reg(c, "reshape", "to-matrix", XT, lambda o, b: o.X.reshape((b.shape[0], b.n // b.shape[0])))
+    reg(c, "scale", "vector,single", lambda b: dict(X=b.T(), f=b.vec(b.N - 1)), lambda o, b: o.X.scale(o.f, b.N - 1))
+    reg(c, "scale", "tensor,multiple", lambda b: dict(X=b.T(), f=b.ttb.tensor(b.arr()[:, :, 0].copy() if b.N == 3 else b.arr()[:, :, 0, 0].copy()), dims=np.array([0, 1])),
+        lambda o: o.X.scale(o.f, o.dims), thorough_shapes=False, shapes=SHAPES + [(2, 3, 2, 2)])
+    reg(c, "squeeze", "singleton", XT, lambda o: o.X.squeeze(), shapes=[(3, 1, 2), (1, 3, 1)])
+    reg(c, "squeeze", "no-singleton", XT, lambda o: o.X.squeeze(), shapes=NOSINGLE)
+    reg(c, "squeeze", "all-singleton", XT, lambda o: o.X.squeeze(), shapes=[(1, 1, 1)], kind="scalar")
+    reg(c, "symmetrize", "default", XT, lambda o: o.X.symmetrize(), shapes=CUBE)
+    reg(c, "symmetrize", "grps", lambda b: dict(X=b.T(), g=np.array([0, 2])), lambda o: o.X.symmetrize(o.g), shapes=CUBE)
+    reg(c, "tenfun", "unary", XT, lambda o: o.X.tenfun(lambda x: x + 1))
+    reg(c, "tenfun", "unary-identity-handle", XT, lambda o: o.X.tenfun(lambda x: x), kind="nocopy")   # the user's handle returns its input
+    reg(c, "tenfun", "binary,tensor", both, lambda o: o.X.tenfun(lambda x, y: x + y, o.Y))
+    reg(c, "tenfun", "binary,ndarray", lambda b: dict(X=b.T(), Y=b.arr(1)), lambda o: o.X.tenfun(lambda x, y: x + y, o.Y))
+    reg(c, "tenfun", "binary,scalar", XT, lambda o: o.X.tenfun(lambda x, y: x + y, 1))
+    reg(c, "tenfun", "nary", lambda b: dict(X=b.T(), Y=b.T(1), Z=b.T(2)), lambda o: o.X.tenfun(lambda x: np.max(x, axis=0), o.Y, o.Z))
+    reg(c, "tenfun_binary", "tensor", both, lambda o: o.X.tenfun_binary(lambda x, y: x + y, o.Y))
+    reg(c, "tenfun_binary", "scalar", XT, lambda o: o.X.tenfun_binary(lambda x, y: x + y, 1))
+    reg(c, "tenfun_binary", "scalar,first=False", XT, lambda o: o.X.tenfun_binary(lambda x, y: x - y, 1, first=False))
+    reg(c, "tenfun_binary", "first-arg-handle", both, lambda o: o.X.tenfun_binary(lambda x, y: x, o.Y), kind="nocopy")
+    reg(c, "tenfun_unary", "single", XT, lambda o: o.X.tenfun_unary(lambda x: x * 2))
+    reg(c, "tenfun_unary", "identity-handle", XT, lambda o: o.X.tenfun_unary(lambda x: x), kind="nocopy")
+    reg(c, "tenfun_unary", "several", both, lambda o: o.X.tenfun_unary(lambda x: np.max(x, axis=0), o.Y))
+    reg(c, "to_sptensor", "default", XT, lambda o: o.X.to_sptensor())
+    reg(c, "to_tenmat", "rdims", lambda b: dict(X=b.T(), r=np.array([0])), lambda o: o.X.to_tenmat(o.r))
+    reg(c, "to_tenmat", "rdims,last", lambda b: dict(X=b.T(), r=np.array([b.N - 1])), lambda o: o.X.to_tenmat(o.r))
+    reg(c, "to_tenmat", "rdims+cdims", lambda b: dict(X=b.T(), r=np.array([1]), cd=np.array([0] + list(range(2, b.N)))), lambda o: o.X.to_tenmat(o.r, o.cd))
+    reg(c, "to_tenmat", "all-rows(identity layout)", lambda b: dict(X=b.T(), r=np.arange(b.N)), lambda o: o.X.to_tenmat(o.r))
+    reg(c, "to_tenmat", "cyclic-fc", lambda b: dict(X=b.T(), r=np.array([1])), lambda o: o.X.to_tenmat(o.r, cdims_cyclic="fc"))
+    reg(c, "to_tenmat", "cyclic-bc", lambda b: dict(X=b.T(), r=np.array([1])), lambda o: o.X.to_tenmat(o.r, cdims_cyclic="bc"))
+    reg(c, "to_tenmat", "copy=False", lambda b: dict(X=b.T(), r=np.array([0])), lambda o: o.X.to_tenmat(o.r, copy=False), kind="nocopy")
+    reg(c, "ttm", "single", lambda b: dict(X=b.T(), M=b.mat(0)), lambda o: o.X.ttm(o.M, 0))
+    reg(c, "ttm", "single,transpose", lambda b: dict(X=b.T(), M=b.mat(0).T.copy()), lambda o: o.X.ttm(o.M, 0, transpose=True))
+    reg(c, "ttm", "all", lambda b: dict(X=b.T(), M=[b.mat(n) for n in range(b.N)]), lambda o: o.X.ttm(o.M))
+    reg(c, "ttm", "dims-array", lambda b: dict(X=b.T(), M=[b.mat(0), b.mat(b.N - 1)], dims=np.array([0, b.N - 1])), lambda o: o.X.ttm(o.M, o.dims))
+    reg(c, "ttm", "exclude", lambda b: dict(X=b.T(), M=[b.mat(n) for n in range(b.N)], ex=np.array([1])), lambda o: o.X.ttm(o.M, exclude_dims=o.ex))
+    reg(c, "ttm", "identity-matrix", lambda b: dict(X=b.T(), M=np.eye(b.shape[0])), lambda o: o.X.ttm(o.M, 0))
+    reg(c, "ttsv", "all", lambda b: dict(X=b.T(), v=b.vec(0)), lambda o: o.X.ttsv(o.v), shapes=CUBE, kind="scalar")
+    reg(c, "ttsv", "skip0", lambda b: dict(X=b.T(), v=b.vec(0)), lambda o: o.X.ttsv(o.v, 0), shapes=CUBE)
+    reg(c, "ttsv", "skip1", lambda b: dict(X=b.T(), v=b.vec(0)), lambda o: o.X.ttsv(o.v, 1), shapes=CUBE)
+    reg(c, "ttsv", "skip1,version1", lambda b: dict(X=b.T(), v=b.vec(0)), lambda o: o.X.ttsv(o.v, 1, version=1), shapes=CUBE)
+    reg(c, "ttt", "outer", both, lambda o: o.X.ttt(o.Y))
+    reg(c, "ttt", "contract-one", both, lambda o: o.X.ttt(o.Y, 0, 0))
+    reg(c, "ttt", "contract-arrays", lambda b: dict(X=b.T(), Y=b.T(1), sd=np.array([0, 1]), od=np.array([0, 1])), lambda o: o.X.ttt(o.Y, o.sd, o.od))
+    reg(c, "ttt", "contract-all", lambda b: dict(X=b.T(), Y=b.T(1), sd=np.arange(b.N), od=np.arange(b.N)), lambda o: o.X.ttt(o.Y, o.sd, o.od), kind="scalar")
+    reg(c, "ttv", "single", lambda b: dict(X=b.T(), v=b.vec(0)), lambda o: o.X.ttv(o.v, 0))
+    reg(c, "ttv", "all", lambda b: dict(X=b.T(), v=b.vecs()), lambda o: o.X.ttv(o.v), kind="scalar")
+    reg(c, "ttv", "dims-array", lambda b: dict(X=b.T(), v=b.vecs([0, b.N - 1]), dims=np.array([0, b.N - 1])), lambda o: o.X.ttv(o.v, o.dims))
+    reg(c, "ttv", "exclude", lambda b: dict(X=b.T(), v=b.vecs(), ex=np.array([0])), lambda o: o.X.ttv(o.v, exclude_dims=o.ex))
+    import operator as op
+    for nm, f in (("__add__", op.add), ("__sub__", op.sub), ("__mul__", op.mul), ("__truediv__", op.truediv), ("__pow__", op.pow),
+                  ("__eq__", op.eq), ("__ne__", op.ne), ("__lt__", op.lt), ("__le__", op.le), ("__gt__", op.gt), ("__ge__", op.ge)):
+        reg(c, nm, "tensor", both, lambda o, f=f: f(o.X, o.Y))
+        reg(c, nm, "scalar", XT, lambda o, f=f: f(o.X, 2.0))
+        if nm in ("__add__", "__sub__", "__mul__", "__truediv__", "__pow__"):
+            reg(c, nm, "neutral-scalar", XT, lambda o, f=f, z=(0.0 if nm in ("__add__", "__sub__") else 1.0): f(o.X, z))
+        if nm in ("__add__", "__sub__", "__mul__", "__eq__", "__ne__", "__gt__", "__lt__", "__ge__", "__le__"):
+            reg(c, nm, "sptensor", lambda b: dict(X=b.T(), Y=b.S()), lambda o, f=f: f(o.X, o.Y))
+    reg(c, "__neg__", "default", XT, lambda o: -o.X)
+    reg(c, "__pos__", "default", XT, lambda o: +o.X)
+    reg(c, "__radd__", "scalar", XT, lambda o: 2.0 + o.X)
+    reg(c, "__radd__", "zero", XT, lambda o: 0 + o.X)
+    reg(c, "__rmul__", "scalar", XT, lambda o: 2.0 * o.X)
+    reg(c, "__rmul__", "one", XT, lambda o: 1 * o.X)
+    reg(c, "__rtruediv__", "scalar", XT, lambda o: 2.0 / o.X)
+    z = lambda b: (0,) * b.N
+    reg(c, "__getitem__", "element", XT, lambda o, b: o.X[z(b)], kind="scalar")
+    reg(c, "__getitem__", "full-slice", XT, lambda o, b: o.X[(slice(None),) * b.N])
+    reg(c, "__getitem__", "sub-slice", XT, lambda o, b: o.X[(slice(0, 2),) + (slice(None),) * (b.N - 1)])
+    reg(c, "__getitem__", "int+slices", XT, lambda o, b: o.X[(0,) + (slice(None),) * (b.N - 1)])
+    reg(c, "__getitem__", "list-in-key", XT, lambda o, b: o.X[([0, 1],) + (slice(None),) * (b.N - 1)])
+    reg(c, "__getitem__", "subscripts", lambda b: dict(X=b.T(), s=b.subs()), lambda o: o.X[o.s])
+    reg(c, "__getitem__", "linear-array", lambda b: dict(X=b.T(), i=np.array([0, b.n - 1])), lambda o: o.X[o.i])
+    reg(c, "__getitem__", "linear-all", lambda b: dict(X=b.T(), i=np.arange(b.n)), lambda o: o.X[o.i])
+    reg(c, "__getitem__", "linear-slice", XT, lambda o: o.X[:])
+    reg(c, "__getitem__", "linear-list", lambda b: dict(X=b.T(), i=[0, 1]), lambda o: o.X[o.i])
+
+    def setit(o, key, val):
+        o.X[key] = val
+        return None
+    I = dict(kind="inplace", recv="X")
+    reg(c, "__setitem__", "element", XT, lambda o, b: setit(o, z(b), 99.0), **I)
+    reg(c, "__setitem__", "slice,scalar", XT, lambda o, b: setit(o, (slice(None),) * b.N, 5.0), **I)
+    reg(c, "__setitem__", "slice,ndarray", lambda b: dict(X=b.T(), v=b.arr(2)), lambda o, b: setit(o, (slice(None),) * b.N, o.v), **I)
+    reg(c, "__setitem__", "slice,tensor", lambda b: dict(X=b.T(), v=b.T(2)), lambda o, b: setit(o, (slice(None),) * b.N, o.v), **I)
+    reg(c, "__setitem__", "subslice,ndarray", lambda b: dict(X=b.T(), v=b.arr(2)[0:1]), lambda o, b: setit(o, (slice(0, 1),) + (slice(None),) * (b.N - 1), o.v), **I)
+    reg(c, "__setitem__", "subscripts,vals", lambda b: dict(X=b.T(), s=b.subs(), v=b.vals()[:, 0].copy()), lambda o: setit(o, o.s, o.v), **I)
+    reg(c, "__setitem__", "subscripts,scalar", lambda b: dict(X=b.T(), s=b.subs()), lambda o: setit(o, o.s, 7.0), **I)
+    reg(c, "__setitem__", "linear,vals", lambda b: dict(X=b.T(), i=np.array([0, b.n - 1]), v=np.array([8.0, 9.0])), lambda o: setit(o, o.i, o.v), **I)
+    reg(c, "__setitem__", "grow,subscript", lambda b: dict(X=b.T(), s=np.array([list(b.shape)])), lambda o: setit(o, o.s, 3.0), **I)
+    reg(c, "__setitem__", "grow,slice", XT, lambda o, b: setit(o, tuple(b.shape[:-1]) + (b.shape[-1],), 3.0), **I)
+
+
+_tensor_table()
+
+reg("tensor", "permute", "singleton-move", lambda b: dict(X=b.T(), order=np.array([1, 0, 2])), lambda o: o.X.permute(o.order), shapes=[(3, 1, 2), (1, 3, 2)])
+
+
+# ---- sptensor -------------------------------------------------------------------------------------------
+def _sptensor_table():
+    c = "sptensor"
+    XS = X("S")
+    both = lambda b: dict(X=b.S(), Y=b.S(1))
+    withT = lambda b: dict(X=b.S(), Y=b.T(1))
+    reg(c, "__init__", "copy=True", lambda b: dict(s=b.subs(), v=b.vals()), lambda o, b: b.ttb.sptensor(o.s, o.v, b.shape, copy=True))
+    reg(c, "__init__", "copy=False", lambda b: dict(s=b.subs(), v=b.vals()), lambda o, b: b.ttb.sptensor(o.s, o.v, b.shape, copy=False), kind="nocopy")
+    reg(c, "__init__", "copy=True,no-shape", lambda b: dict(s=b.subs(), v=b.vals()), lambda o, b: b.ttb.sptensor(o.s, o.v, copy=True))
+    reg(c, "allsubs", "default", XS, lambda o: o.X.allsubs())
+    reg(c, "collapse", "all", XS, lambda o: o.X.collapse(), kind="scalar")
+    reg(c, "collapse", "single", lambda b: dict(X=b.S(), dims=np.array([0])), lambda o: o.X.collapse(o.dims))
+    reg(c, "collapse", "multiple", lambda b: dict(X=b.S(), dims=np.array([0, 1])), lambda o: o.X.collapse(o.dims))
+    reg(c, "collapse", "all-but-one", lambda b: dict(X=b.S(), dims=np.arange(1, b.N)), lambda o: o.X.collapse(o.dims))
+    reg(c, "contract", "default", XS, lambda o: o.X.contract(0, 1), shapes=CUBE + [(2, 2, 3, 4)])
+    reg(c, "contract", "to-scalar", XS, lambda o: o.X.contract(0, 1), shapes=[(2, 2)], kind="scalar")
+    reg(c, "copy", "default", XS, lambda o: o.X.copy())
+    reg(c, "__deepcopy__", "default", XS, lambda o: _copy.deepcopy(o.X))
+    for nm in ("subs", "vals", "shape"):
+        reg(c, nm, "attr", XS, lambda o, nm=nm: getattr(o.X, nm), kind="attr")
+    reg(c, "double", "default", XS, lambda o: o.X.double())
+    reg(c, "elemfun", "default", XS, lambda o: o.X.elemfun(lambda v: v * 2))
+    reg(c, "elemfun", "identity-handle", XS, lambda o: o.X.elemfun(lambda v: v), kind="nocopy")
+    reg(c, "extract", "default", lambda b: dict(X=b.S(), q=b.subs()[:2].copy()), lambda o: o.X.extract(o.q))
+    reg(c, "extract", "missing", lambda b: dict(X=b.S(), q=b.subs(1)[:2].copy()), lambda o: o.X.extract(o.q))
+    reg(c, "find", "default", XS, lambda o: o.X.find())
+    reg(c, "from_aggregator", "with-shape", lambda b: dict(s=np.vstack([b.subs(), b.subs()[:1]]), v=np.vstack([b.vals(), b.vals()[:1]])),
+        lambda o, b: b.ttb.sptensor.from_aggregator(o.s, o.v, b.shape))
+    reg(c, "from_aggregator", "no-shape,no-duplicates", lambda b: dict(s=b.subs(), v=b.vals()), lambda o, b: b.ttb.sptensor.from_aggregator(o.s, o.v))
+    reg(c, "from_aggregator", "function=max", lambda b: dict(s=np.vstack([b.subs(), b.subs()[:1]]), v=np.vstack([b.vals(), b.vals()[:1]])),
+        lambda o, b: b.ttb.sptensor.from_aggregator(o.s, o.v, b.shape, np.max))
+    reg(c, "from_function", "default", lambda b: dict(), lambda o, b: b.ttb.sptensor.from_function(np.ones, b.shape, 2))
+    reg(c, "full", "default", XS, lambda o: o.X.full())
+    reg(c, "to_tensor", "default", XS, lambda o: o.X.to_tensor())
+    reg(c, "innerprod", "sptensor", both, lambda o: o.X.innerprod(o.Y), kind="scalar")
+    reg(c, "innerprod", "tensor", withT, lambda o: o.X.innerprod(o.Y), kind="scalar")
+    reg(c, "innerprod", "ktensor", lambda b: dict(X=b.S(), Y=b.K()), lambda o: o.X.innerprod(o.Y), kind="scalar")
+    reg(c, "innerprod", "ttensor", lambda b: dict(X=b.S(), Y=b.TT()), lambda o: o.X.innerprod(o.Y), kind="scalar")
+    reg(c, "isequal", "sptensor", both, lambda o: o.X.isequal(o.Y), kind="scalar")
+    reg(c, "isequal", "tensor", withT, lambda o: o.X.isequal(o.Y), kind="scalar")
+    for nm in ("logical_and", "logical_or", "logical_xor"):
+        reg(c, nm, "sptensor", both, lambda o, nm=nm: getattr(o.X, nm)(o.Y))
+        reg(c, nm, "tensor", withT, lambda o, nm=nm: getattr(o.X, nm)(o.Y))
+        reg(c, nm, "scalar", XS, lambda o, nm=nm: getattr(o.X, nm)(1.0))
+        reg(c, nm, "zero", XS, lambda o, nm=nm: getattr(o.X, nm)(0))
+    reg(c, "logical_not", "default", XS, lambda o: o.X.logical_not())
+    reg(c, "mask", "default", lambda b: dict(X=b.S(), W=b.WS()), lambda o: o.X.mask(o.W))
+    reg(c, "mttkrp", "list,first", lambda b: dict(X=b.S(), U=b.fm()), lambda o: o.X.mttkrp(o.U, 0))
+    reg(c, "mttkrp", "list,last", lambda b: dict(X=b.S(), U=b.fm()), lambda o, b: o.X.mttkrp(o.U, b.N - 1))
+    reg(c, "mttkrp", "ktensor", lambda b: dict(X=b.S(), U=b.K()), lambda o: o.X.mttkrp(o.U, 1))
+    for nm in ("ndims", "nnz", "order"):
+        reg(c, nm, "property", XS, lambda o, nm=nm: getattr(o.X, nm), kind="property")
+    reg(c, "norm", "default", XS, lambda o: o.X.norm(), kind="scalar")
+    reg(c, "nvecs", "r=1", XS, lambda o: o.X.nvecs(0, 1), shapes=NOSINGLE)
+    reg(c, "nvecs", "r=all", XS, lambda o, b: o.X.nvecs(0, b.shape[0]), shapes=NOSINGLE)
+    reg(c, "ones", "default", XS, lambda o: o.X.ones())
+    reg(c, "permute", "identity", lambda b: dict(X=b.S(), order=np.arange(b.N)), lambda o: o.X.permute(o.order))
+    reg(c, "permute", "reverse", lambda b: dict(X=b.S(), order=np.arange(b.N)[::-1].copy()), lambda o: o.X.permute(o.order))
+    reg(c, "reshape", "same-shape", XS, lambda o, b: o.X.reshape(b.shape))
+    reg(c, "reshape", "to-vector", XS, lambda o, b: o.X.reshape((b.n,)))
+    reg(c, "reshape", "old-modes", lambda b: dict(X=b.S(), om=np.array([0, 1])), lambda o, b: o.X.reshape((b.shape[0] * b.shape[1],), o.om))
+    reg(c, "scale", "vector", lambda b: dict(X=b.S(), f=b.vec(b.N - 1), d=np.array([b.N - 1])), lambda o: o.X.scale(o.f, o.d))
+    reg(c, "scale", "tensor", lambda b: dict(X=b.S(), f=b.ttb.tensor(b.vec(b.N - 1)), d=np.array([b.N - 1])), lambda o: o.X.scale(o.f, o.d))
+    reg(c, "scale", "sptensor", lambda b: dict(X=b.S(), f=b.ttb.sptensor(np.array([[0], [1]]), np.array([[2.0], [3.0]]), (b.shape[-1],)), d=np.array([b.N - 1])), lambda o: o.X.scale(o.f, o.d))
+    reg(c, "spmatrix", "default", XS, lambda o: o.X.spmatrix(), shapes=[(3, 4), (2, 2)])
+    reg(c, "squash", "default", XS, lambda o: o.X.squash())
+    reg(c, "squash", "inverse", XS, lambda o: o.X.squash(True))
+    reg(c, "squeeze", "singleton", XS, lambda o: o.X.squeeze(), shapes=[(3, 1, 2), (1, 3, 1)])
+    reg(c, "squeeze", "no-singleton", XS, lambda o: o.X.squeeze(), shapes=NOSINGLE)
+    reg(c, "subdims", "default", lambda b: dict(X=b.S(), r0=np.array([0, 1])), lambda o, b: o.X.subdims([o.r0] + [slice(None)] * (b.N - 1)))
+    reg(c, "subdims", "ints", XS, lambda o, b: o.X.subdims([0] * b.N))
+    reg(c, "to_sptenmat", "rdims", lambda b: dict(X=b.S(), r=np.array([0])), lambda o: o.X.to_sptenmat(o.r))
+    reg(c, "to_sptenmat", "rdims+cdims", lambda b: dict(X=b.S(), r=np.array([1]), cd=np.array([0] + list(range(2, b.N)))), lambda o: o.X.to_sptenmat(o.r, o.cd))
+    reg(c, "to_sptenmat", "cyclic-fc", lambda b: dict(X=b.S(), r=np.array([1])), lambda o: o.X.to_sptenmat(o.r, cdims_cyclic="fc"))
+    reg(c, "to_sptenmat", "cyclic-bc", lambda b: dict(X=b.S(), r=np.array([1])), lambda o: o.X.to_sptenmat(o.r, cdims_cyclic="bc"))
+    reg(c, "to_sptenmat", "all-rows", lambda b: dict(X=b.S(), r=np.arange(b.N)), lambda o: o.X.to_sptenmat(o.r))
+    reg(c, "ttm", "single", lambda b: dict(X=b.S(), M=b.mat(0)), lambda o: o.X.ttm(o.M, 0))
+    reg(c, "ttm", "single,transpose", lambda b: dict(X=b.S(), M=b.mat(0).T.copy()), lambda o: o.X.ttm(o.M, 0, transpose=True))
+    reg(c, "ttm", "all", lambda b: dict(X=b.S(), M=[b.mat(n) for n in range(b.N)]), lambda o: o.X.ttm(o.M))
+    reg(c, "ttm", "exclude", lambda b: dict(X=b.S(), M=[b.mat(n) for n in range(b.N)], ex=np.array([1])), lambda o: o.X.ttm(o.M, exclude_dims=o.ex))
+    reg(c, "ttv", "single", lambda b: dict(X=b.S(), v=b.vec(0)), lambda o: o.X.ttv(o.v, 0))
+    reg(c, "ttv", "single,last", lambda b: dict(X=b.S(), v=b.vec(b.N - 1)), lambda o, b: o.X.ttv(o.v, b.N - 1))
+    reg(c, "ttv", "all", lambda b: dict(X=b.S(), v=b.vecs()), lambda o: o.X.ttv(o.v), kind="scalar")
+    reg(c, "ttv", "dims-array", lambda b: dict(X=b.S(), v=b.vecs([0, b.N - 1]), dims=np.array([0, b.N - 1])), lambda o: o.X.ttv(o.v, o.dims))
+    reg(c, "ttv", "exclude", lambda b: dict(X=b.S(), v=b.vecs(), ex=np.array([0])), lambda o: o.X.ttv(o.v, exclude_dims=o.ex))
+    import operator as op
+    for nm, f in (("__add__", op.add), ("__sub__", op.sub), ("__mul__", op.mul), ("__truediv__", op.truediv),
+                  ("__eq__", op.eq), ("__ne__", op.ne), ("__lt__", op.lt), ("__le__", op.le), ("__gt__", op.gt), ("__ge__", op.ge)):
+        reg(c, nm, "sptensor", both, lambda o, f=f: f(o.X, o.Y))
+        reg(c, nm, "tensor", withT, lambda o, f=f: f(o.X, o.Y))
+        reg(c, nm, "scalar", XS, lambda o, f=f: f(o.X, 2.0))
+        if nm in ("__add__", "__sub__", "__mul__", "__truediv__"):
+            reg(c, nm, "neutral-scalar", XS, lambda o, f=f, z=(0.0 if nm in ("__add__", "__sub__") else 1.0): f(o.X, z))
+    reg(c, "__mul__", "ktensor", lambda b: dict(X=b.S(), Y=b.K()), lambda o: o.X * o.Y)
+    reg(c, "__neg__", "default", XS, lambda o: -o.X)
+    reg(c, "__pos__", "default", XS, lambda o: +o.X)
+    reg(c, "__rmul__", "scalar", XS, lambda o: 2.0 * o.X)
+    reg(c, "__rmul__", "one", XS, lambda o: 1 * o.X)
+    reg(c, "__rtruediv__", "scalar", XS, lambda o: 2.0 / o.X)
+    z = lambda b: (0,) * b.N
+    reg(c, "__getitem__", "element", XS, lambda o, b: o.X[z(b)], kind="scalar")
+    reg(c, "__getitem__", "full-slice", XS, lambda o, b: o.X[(slice(None),) * b.N])
+    reg(c, "__getitem__", "sub-slice", XS, lambda o, b: o.X[(slice(0, 2),) + (slice(None),) * (b.N - 1)])
+    reg(c, "__getitem__", "int+slices", XS, lambda o, b: o.X[(0,) + (slice(None),) * (b.N - 1)])
+    reg(c, "__getitem__", "subscripts", lambda b: dict(X=b.S(), s=b.subs()), lambda o: o.X[o.s])
+    reg(c, "__getitem__", "linear-array", lambda b: dict(X=b.S(), i=np.array([0, b.n - 1])), lambda o: o.X[o.i])
+    reg(c, "__getitem__", "linear-list", lambda b: dict(X=b.S(), i=[0, 1]), lambda o: o.X[o.i])
+
+    def setit(o, key, val):
+        o.X[key] = val
+        return None
+    I = dict(kind="inplace", recv="X")
+    reg(c, "__setitem__", "element", XS, lambda o, b: setit(o, z(b), 99.0), **I)
+    reg(c, "__setitem__", "element-new", XS, lambda o, b: setit(o, tuple(s - 1 for s in b.shape), 99.0), **I)
+    reg(c, "__setitem__", "element-zero", XS, lambda o, b: setit(o, z(b), 0.0), **I)
+    reg(c, "__setitem__", "slice,scalar", XS, lambda o, b: setit(o, (slice(None),) * b.N, 5.0), **I)
+    reg(c, "__setitem__", "slice,sptensor", lambda b: dict(X=b.S(), v=b.S(2)), lambda o, b: setit(o, (slice(None),) * b.N, o.v), **I)
+    reg(c, "__setitem__", "subscripts,vals", lambda b: dict(X=b.S(), s=b.subs(1), v=b.vals(1)), lambda o: setit(o, o.s, o.v), **I)
+    reg(c, "__setitem__", "subscripts,existing", lambda b: dict(X=b.S(), s=b.subs(), v=b.vals(3)), lambda o: setit(o, o.s, o.v), **I)
+    reg(c, "__setitem__", "subscripts,scalar", lambda b: dict(X=b.S(), s=b.subs(1)), lambda o: setit(o, o.s, 7.0), **I)
+    reg(c, "__setitem__", "grow,subscript", lambda b: dict(X=b.S(), s=np.array([list(b.shape)])), lambda o: setit(o, o.s, 3.0), **I)
+    reg(c, "__setitem__", "on-empty", lambda b: dict(X=b.ttb.sptensor(shape=b.shape), s=b.subs(), v=b.vals()), lambda o: setit(o, o.s, o.v), **I)
+
+
+_sptensor_table()
+
+# ---- ktensor --------------------------------------------------------------------------------------------
+def _ktensor_table():
+    c = "ktensor"
+    XK = X("K")
+    both = lambda b: dict(X=b.K(), Y=b.K(off=1))
+    reg(c, "__init__", "copy=True", lambda b: dict(f=b.fm(), w=np.array([2.0, 3.0])), lambda o, b: b.ttb.ktensor(o.f, o.w, copy=True))
+    reg(c, "__init__", "copy=True,no-weights", lambda b: dict(f=b.fm()), lambda o, b: b.ttb.ktensor(o.f, copy=True))
+    reg(c, "__init__", "copy=False", lambda b: dict(f=b.fm(), w=np.array([2.0, 3.0])), lambda o, b: b.ttb.ktensor(o.f, o.w, copy=False), kind="nocopy")
+    I = dict(kind="inplace", recv="X")
+    reg(c, "arrange", "default", XK, lambda o: o.X.arrange(), **I)
+    reg(c, "arrange", "weight_factor", XK, lambda o: o.X.arrange(weight_factor=0), **I)
+    reg(c, "arrange", "permutation-array", lambda b: dict(X=b.K(), p=np.array([1, 0])), lambda o: o.X.arrange(permutation=o.p), **I)
+    reg(c, "arrange", "permutation-list", lambda b: dict(X=b.K(), p=[1, 0]), lambda o: o.X.arrange(permutation=o.p), **I)
+    reg(c, "copy", "default", XK, lambda o: o.X.copy())
+    reg(c, "__deepcopy__", "default", XK, lambda o: _copy.deepcopy(o.X))
+    for nm in ("weights", "factor_matrices"):
+        reg(c, nm, "attr", XK, lambda o, nm=nm: getattr(o.X, nm), kind="attr")
+    reg(c, "double", "default", XK, lambda o: o.X.double())
+    reg(c, "extract", "int", XK, lambda o: o.X.extract(1))
+    reg(c, "extract", "list", lambda b: dict(X=b.K(), i=[1, 0]), lambda o: o.X.extract(o.i))
+    reg(c, "extract", "array-all", lambda b: dict(X=b.K(), i=np.array([0, 1])), lambda o: o.X.extract(o.i))
+    reg(c, "extract", "none", XK, lambda o: o.X.extract())
+    reg(c, "fixsigns", "default", XK, lambda o: o.X.fixsigns(), **I)
+    reg(c, "fixsigns", "negative-columns", lambda b: dict(X=b.ttb.ktensor([-f for f in b.fm()], np.array([2.0, 3.0]))), lambda o: o.X.fixsigns(), **I)
+    reg(c, "fixsigns", "other", lambda b: dict(X=b.K(), Y=b.ttb.ktensor([-f for f in b.fm()][:2] + b.fm()[2:], np.array([2.0, 3.0]))), lambda o: o.X.fixsigns(o.Y), **I)
+    reg(c, "from_function", "default", lambda b: dict(), lambda o, b: b.ttb.ktensor.from_function(np.ones, b.shape, 2))
+    reg(c, "from_vector", "with-weights", lambda b: dict(d=np.arange(1.0, 2 + 2 * sum(b.shape) + 1)), lambda o, b: b.ttb.ktensor.from_vector(o.d, b.shape, True))
+    reg(c, "from_vector", "no-weights", lambda b: dict(d=np.arange(1.0, 2 * sum(b.shape) + 1)), lambda o, b: b.ttb.ktensor.from_vector(o.d, b.shape, False))
+    reg(c, "from_vector", "column-vector", lambda b: dict(d=np.arange(1.0, 2 * sum(b.shape) + 1).reshape(-1, 1)), lambda o, b: b.ttb.ktensor.from_vector(o.d, b.shape, False))
+    reg(c, "full", "default", XK, lambda o: o.X.full())
+    reg(c, "to_tensor", "default", XK, lambda o: o.X.to_tensor())
+    reg(c, "innerprod", "ktensor", both, lambda o: o.X.innerprod(o.Y), kind="scalar")
+    reg(c, "innerprod", "tensor", lambda b: dict(X=b.K(), Y=b.T()), lambda o: o.X.innerprod(o.Y), kind="scalar")
+    reg(c, "innerprod", "sptensor", lambda b: dict(X=b.K(), Y=b.S()), lambda o: o.X.innerprod(o.Y), kind="scalar")
+    reg(c, "innerprod", "ttensor", lambda b: dict(X=b.K(), Y=b.TT()), lambda o: o.X.innerprod(o.Y), kind="scalar")
+    reg(c, "isequal", "ktensor", both, lambda o: o.X.isequal(o.Y), kind="scalar")
+    reg(c, "issymmetric", "default", XK, lambda o: o.X.issymmetric(), shapes=CUBE, kind="scalar")
+    reg(c, "issymmetric", "diffs", XK, lambda o: o.X.issymmetric(return_diffs=True), shapes=CUBE)
+    reg(c, "mask", "tensor", lambda b: dict(X=b.K(), W=b.W()), lambda o: o.X.mask(o.W))
+    reg(c, "mask", "sptensor", lambda b: dict(X=b.K(), W=b.WS()), lambda o: o.X.mask(o.W))
+    reg(c, "mttkrp", "list", lambda b: dict(X=b.K(), U=b.fm(R=3, off=1)), lambda o: o.X.mttkrp(o.U, 0))
+    reg(c, "mttkrp", "ktensor", lambda b: dict(X=b.K(), U=b.K(off=1)), lambda o, b: o.X.mttkrp(o.U, b.N - 1))
+    for nm in ("ncomponents", "ndims", "order", "shape"):
+        reg(c, nm, "property", XK, lambda o, nm=nm: getattr(o.X, nm), kind="property")
+    reg(c, "norm", "default", XK, lambda o: o.X.norm(), kind="scalar")
+    reg(c, "normalize", "default", XK, lambda o: o.X.normalize(), **I)
+    reg(c, "normalize", "weight_factor=all", XK, lambda o: o.X.normalize("all"), **I)
+    reg(c, "normalize", "weight_factor=int", XK, lambda o: o.X.normalize(1), **I)
+    reg(c, "normalize", "sort", XK, lambda o: o.X.normalize(sort=True), **I)
+    reg(c, "normalize", "normtype=1", XK, lambda o: o.X.normalize(normtype=1), **I)
+    reg(c, "normalize", "mode", XK, lambda o: o.X.normalize(mode=0), **I)
+    reg(c, "nvecs", "r=1", XK, lambda o: o.X.nvecs(0, 1))
+    reg(c, "nvecs", "r=2,noflip", XK, lambda o: o.X.nvecs(0, 2, flipsign=False), shapes=NOSINGLE)
+    reg(c, "permute", "identity", lambda b: dict(X=b.K(), order=np.arange(b.N)), lambda o: o.X.permute(o.order))
+    reg(c, "permute", "reverse", lambda b: dict(X=b.K(), order=np.arange(b.N)[::-1].copy()), lambda o: o.X.permute(o.order))
+    reg(c, "redistribute", "mode0", XK, lambda o: o.X.redistribute(0), **I)
+    reg(c, "redistribute", "last", XK, lambda o, b: o.X.redistribute(b.N - 1), **I)
+    reg(c, "score", "default", both, lambda o: o.X.score(o.Y))
+    reg(c, "score", "no-penalty,threshold", both, lambda o: o.X.score(o.Y, weight_penalty=False, threshold=0.5))
+    reg(c, "symmetrize", "default", XK, lambda o: o.X.symmetrize(), shapes=CUBE)
+    reg(c, "to_tenmat", "rdims", lambda b: dict(X=b.K(), r=np.array([0])), lambda o: o.X.to_tenmat(o.r))
+    reg(c, "to_tenmat", "rdims+cdims", lambda b: dict(X=b.K(), r=np.array([1]), cd=np.array([0] + list(range(2, b.N)))), lambda o: o.X.to_tenmat(o.r, o.cd))
+    reg(c, "to_tenmat", "copy=False", lambda b: dict(X=b.K(), r=np.array([0])), lambda o: o.X.to_tenmat(o.r, copy=False), kind="pure")
+    reg(c, "tolist", "all", XK, lambda o: o.X.tolist())
+    reg(c, "tolist", "mode", XK, lambda o: o.X.tolist(0))
+    reg(c, "tolist", "mode,unit-weights", lambda b: dict(X=b.ttb.ktensor(b.fm())), lambda o: o.X.tolist(0))
+    reg(c, "tolist", "all,unit-weights", lambda b: dict(X=b.ttb.ktensor(b.fm())), lambda o: o.X.tolist())
+    reg(c, "tovec", "with-weights", XK, lambda o: o.X.tovec())
+    reg(c, "tovec", "no-weights", XK, lambda o: o.X.tovec(False))
+    reg(c, "ttv", "single", lambda b: dict(X=b.K(), v=b.vec(0)), lambda o: o.X.ttv(o.v, 0))
+    reg(c, "ttv", "single,last", lambda b: dict(X=b.K(), v=b.vec(b.N - 1)), lambda o, b: o.X.ttv(o.v, b.N - 1))
+    reg(c, "ttv", "all", lambda b: dict(X=b.K(), v=b.vecs()), lambda o: o.X.ttv(o.v), kind="scalar", shapes=NOSINGLE)   # pyttb rejects a length-1 vector here (not C05)
+    reg(c, "ttv", "dims-array", lambda b: dict(X=b.K(), v=b.vecs([0, b.N - 1]), dims=np.array([0, b.N - 1])), lambda o: o.X.ttv(o.v, o.dims))
+    reg(c, "ttv", "exclude", lambda b: dict(X=b.K(), v=b.vecs(), ex=np.array([0])), lambda o: o.X.ttv(o.v, exclude_dims=o.ex), shapes=NOSINGLE)
+    reg(c, "update", "single-mode", lambda b: dict(X=b.K(), d=np.arange(1.0, 2 * b.shape[0] + 1)), lambda o: o.X.update(0, o.d), **I)
+    reg(c, "update", "all-modes+weights", lambda b: dict(X=b.K(), m=list(range(-1, b.N)), d=np.arange(1.0, 2 + 2 * sum(b.shape) + 1)), lambda o: o.X.update(o.m, o.d), **I)
+    reg(c, "update", "some-modes", lambda b: dict(X=b.K(), m=[0, b.N - 1], d=np.arange(1.0, 2 * (b.shape[0] + b.shape[-1]) + 1)), lambda o: o.X.update(o.m, o.d), **I)
+    skip(c, "viz", "plotting front-end (matplotlib figure side effects); DESIGN §6.7 lists ktensor.viz as neither modelled nor verified")
+    reg(c, "__add__", "ktensor", both, lambda o: o.X + o.Y)
+    reg(c, "__sub__", "ktensor", both, lambda o: o.X - o.Y)
+    reg(c, "__mul__", "scalar", XK, lambda o: o.X * 2.0)
+    reg(c, "__mul__", "one", XK, lambda o: o.X * 1)
+    reg(c, "__rmul__", "scalar", XK, lambda o: 2.0 * o.X)
+    reg(c, "__neg__", "default", XK, lambda o: -o.X)
+    reg(c, "__pos__", "default", XK, lambda o: +o.X)
+
+
+_ktensor_table()
+
+# ---- ttensor --------------------------------------------------------------------------------------------
+def _ttensor_table():
+    c = "ttensor"
+    XT = X("TT")
+    reg(c, "__init__", "copy=True", lambda b: dict(core=b.TT().core, f=b.TT().factor_matrices), lambda o, b: b.ttb.ttensor(o.core, o.f, copy=True))
+    reg(c, "__init__", "copy=False", lambda b: dict(core=b.TT().core, f=b.TT().factor_matrices), lambda o, b: b.ttb.ttensor(o.core, o.f, copy=False), kind="nocopy")
+    reg(c, "__init__", "copy=True,sparse-core", lambda b: dict(core=b.TT().core.to_sptensor(), f=b.TT().factor_matrices), lambda o, b: b.ttb.ttensor(o.core, o.f, copy=True))
+    reg(c, "copy", "default", XT, lambda o: o.X.copy())
+    reg(c, "__deepcopy__", "default", XT, lambda o: _copy.deepcopy(o.X))
+    for nm in ("core", "factor_matrices"):
+        reg(c, nm, "attr", XT, lambda o, nm=nm: getattr(o.X, nm), kind="attr")
+    reg(c, "double", "default", XT, lambda o: o.X.double())
+    reg(c, "full", "default", XT, lambda o: o.X.full())
+    reg(c, "full", "identity-factors", lambda b: dict(X=b.ttb.ttensor(b.T(), [np.eye(s) for s in b.shape])), lambda o: o.X.full())
+    reg(c, "to_tensor", "default", XT, lambda o: o.X.to_tensor())
+    reg(c, "innerprod", "ttensor", lambda b: dict(X=b.TT(), Y=b.TT(1)), lambda o: o.X.innerprod(o.Y), kind="scalar")
+    reg(c, "innerprod", "tensor", lambda b: dict(X=b.TT(), Y=b.T()), lambda o: o.X.innerprod(o.Y), kind="scalar")
+    reg(c, "innerprod", "sptensor", lambda b: dict(X=b.TT(), Y=b.S()), lambda o: o.X.innerprod(o.Y), kind="scalar")
+    reg(c, "innerprod", "ktensor", lambda b: dict(X=b.TT(), Y=b.K()), lambda o: o.X.innerprod(o.Y), kind="scalar")
+    reg(c, "isequal", "ttensor", lambda b: dict(X=b.TT(), Y=b.TT()), lambda o: o.X.isequal(o.Y), kind="scalar")
+    reg(c, "mttkrp", "list", lambda b: dict(X=b.TT(), U=b.fm()), lambda o: o.X.mttkrp(o.U, 0))
+    reg(c, "mttkrp", "ktensor", lambda b: dict(X=b.TT(), U=b.K()), lambda o, b: o.X.mttkrp(o.U, b.N - 1))
+    for nm in ("ndims", "order", "shape"):
+        reg(c, nm, "property", XT, lambda o, nm=nm: getattr(o.X, nm), kind="property")
+    reg(c, "norm", "default", XT, lambda o: o.X.norm(), kind="scalar")
+    reg(c, "nvecs", "r=1", XT, lambda o: o.X.nvecs(0, 1))
+    reg(c, "permute", "identity", lambda b: dict(X=b.TT(), order=np.arange(b.N)), lambda o: o.X.permute(o.order))
+    reg(c, "permute", "reverse", lambda b: dict(X=b.TT(), order=np.arange(b.N)[::-1].copy()), lambda o: o.X.permute(o.order))
+    reg(c, "reconstruct", "default", XT, lambda o: o.X.reconstruct())
+    reg(c, "reconstruct", "samples-int", XT, lambda o: o.X.reconstruct(1, 0))
+    reg(c, "reconstruct", "samples-array", lambda b: dict(X=b.TT(), s=np.array([0, 1])), lambda o: o.X.reconstruct(o.s, 0))
+    reg(c, "reconstruct", "samples-lists", lambda b: dict(X=b.TT(), s=[np.array([0, 1]), np.array([0])], m=np.array([0, b.N - 1])), lambda o: o.X.reconstruct(o.s, o.m))
+    reg(c, "ttm", "single", lambda b: dict(X=b.TT(), M=b.mat(0)), lambda o: o.X.ttm(o.M, 0))
+    reg(c, "ttm", "single,transpose", lambda b: dict(X=b.TT(), M=b.mat(0).T.copy()), lambda o: o.X.ttm(o.M, 0, transpose=True))
+    reg(c, "ttm", "all", lambda b: dict(X=b.TT(), M=[b.mat(n) for n in range(b.N)]), lambda o: o.X.ttm(o.M))
+    reg(c, "ttm", "exclude", lambda b: dict(X=b.TT(), M=[b.mat(n) for n in range(b.N)], ex=np.array([1])), lambda o: o.X.ttm(o.M, exclude_dims=o.ex))
+    reg(c, "ttv", "single", lambda b: dict(X=b.TT(), v=b.vec(0)), lambda o: o.X.ttv(o.v, 0))
+    reg(c, "ttv", "all", lambda b: dict(X=b.TT(), v=b.vecs()), lambda o: o.X.ttv(o.v), kind="scalar")
+    reg(c, "ttv", "dims-array", lambda b: dict(X=b.TT(), v=b.vecs([0, b.N - 1]), dims=np.array([0, b.N - 1])), lambda o: o.X.ttv(o.v, o.dims))
+    reg(c, "ttv", "exclude", lambda b: dict(X=b.TT(), v=b.vecs(), ex=np.array([0])), lambda o: o.X.ttv(o.v, exclude_dims=o.ex))
+    reg(c, "__mul__", "scalar", XT, lambda o: o.X * 2.0)
+    reg(c, "__mul__", "one", XT, lambda o: o.X * 1)
+    reg(c, "__rmul__", "scalar", XT, lambda o: 2.0 * o.X)
+    reg(c, "__neg__", "default", XT, lambda o: -o.X)
+    reg(c, "__pos__", "default", XT, lambda o: +o.X)
+
+
+_ttensor_table()
+
+
+# ---- tenmat ---------------------------------------------------------------------------------------------
+def _tenmat_table():
+    c = "tenmat"
+    XM = X("TM")
+    both = lambda b: dict(X=b.TM(), Y=b.TM(1))
+    mk = lambda b: dict(d=b.arr().reshape((b.shape[0], b.n // b.shape[0]), order="F").copy(order="F"), r=np.array([0]), cd=np.arange(1, b.N))
+    reg(c, "__init__", "copy=True", mk, lambda o, b: b.ttb.tenmat(o.d, o.r, o.cd, b.shape, copy=True))
+    reg(c, "__init__", "copy=True,rdims-only", mk, lambda o, b: b.ttb.tenmat(o.d, o.r, tshape=b.shape, copy=True))
+    reg(c, "__init__", "copy=False", mk, lambda o, b: b.ttb.tenmat(o.d, o.r, o.cd, b.shape, copy=False), kind="nocopy")
+    reg(c, "copy", "default", XM, lambda o: o.X.copy())
+    reg(c, "__deepcopy__", "default", XM, lambda o: _copy.deepcopy(o.X))
+    for nm in ("cindices", "rindices", "data", "tshape"):
+        reg(c, nm, "attr", XM, lambda o, nm=nm: getattr(o.X, nm), kind="attr")
+    reg(c, "ctranspose", "default", XM, lambda o: o.X.ctranspose())
+    reg(c, "double", "default", XM, lambda o: o.X.double())
+    reg(c, "isequal", "tenmat", both, lambda o: o.X.isequal(o.Y), kind="scalar")
+    for nm in ("ndims", "order", "shape"):
+        reg(c, nm, "property", XM, lambda o, nm=nm: getattr(o.X, nm), kind="property")
+    reg(c, "norm", "default", XM, lambda o: o.X.norm(), kind="scalar")
+    reg(c, "to_tensor", "copy=True", XM, lambda o: o.X.to_tensor())
+    reg(c, "to_tensor", "copy=True,permuted", lambda b: dict(X=b.T().to_tenmat(np.array([1]))), lambda o: o.X.to_tensor())
+    reg(c, "to_tensor", "copy=False", XM, lambda o: o.X.to_tensor(copy=False), kind="nocopy")
+    reg(c, "__add__", "tenmat", both, lambda o: o.X + o.Y)
+    reg(c, "__add__", "scalar", XM, lambda o: o.X + 2.0)
+    reg(c, "__add__", "zero", XM, lambda o: o.X + 0)
+    reg(c, "__sub__", "tenmat", both, lambda o: o.X - o.Y)
+    reg(c, "__sub__", "scalar", XM, lambda o: o.X - 2.0)
+    reg(c, "__mul__", "scalar", XM, lambda o: o.X * 2.0)
+    reg(c, "__mul__", "one", XM, lambda o: o.X * 1)
+    reg(c, "__mul__", "tenmat", lambda b: dict(X=b.TM(), Y=b.TM(1).ctranspose()), lambda o: o.X * o.Y)
+    reg(c, "__radd__", "scalar", XM, lambda o: 2.0 + o.X)
+    reg(c, "__rsub__", "scalar", XM, lambda o: 2.0 - o.X)
+    reg(c, "__rmul__", "scalar", XM, lambda o: 2.0 * o.X)
+    reg(c, "__neg__", "default", XM, lambda o: -o.X)
+    reg(c, "__pos__", "default", XM, lambda o: +o.X)
+    reg(c, "__getitem__", "element", XM, lambda o: o.X[0, 0], kind="scalar")
+    reg(c, "__getitem__", "row", XM, lambda o: o.X[0, :])
+    reg(c, "__getitem__", "full-slice", XM, lambda o: o.X[:, :])
+    reg(c, "__getitem__", "fancy", lambda b: dict(X=b.TM(), i=np.array([0, 1])), lambda o: o.X[o.i, :])
+
+    def setit(o, key, val):
+        o.X[key] = val
+        return None
+    I = dict(kind="inplace", recv="X")
+    reg(c, "__setitem__", "element", XM, lambda o: setit(o, (0, 0), 9.0), **I)
+    reg(c, "__setitem__", "row,ndarray", lambda b: dict(X=b.TM(), v=np.arange(1.0, b.n // b.shape[0] + 1)), lambda o: setit(o, (0, slice(None)), o.v), **I)
+    reg(c, "__setitem__", "full,ndarray", lambda b: dict(X=b.TM(), v=b.arr(2).reshape((b.shape[0], -1), order="F").copy()), lambda o: setit(o, (slice(None), slice(None)), o.v), **I)
+
+
+_tenmat_table()
+
+
+# ---- sptenmat -------------------------------------------------------------------------------------------
+def _sptenmat_table():
+    c = "sptenmat"
+    XM = X("STM")
+
+    def mk(b):
+        m = b.STM()
+        return dict(s=m.subs.copy(), v=m.vals.copy(), r=np.array([0]), cd=np.arange(1, b.N))
+    reg(c, "__init__", "copy=True", mk, lambda o, b: b.ttb.sptenmat(o.s, o.v, o.r, o.cd, b.shape, copy=True))
+    reg(c, "__init__", "copy=False", mk, lambda o, b: b.ttb.sptenmat(o.s, o.v, o.r, o.cd, b.shape, copy=False), kind="nocopy")
+    reg(c, "copy", "default", XM, lambda o: o.X.copy())
+    reg(c, "__deepcopy__", "default", XM, lambda o: _copy.deepcopy(o.X))
+    for nm in ("cdims", "rdims", "subs", "vals", "tshape"):
+        reg(c, nm, "attr", XM, lambda o, nm=nm: getattr(o.X, nm), kind="attr")
+    reg(c, "double", "default", XM, lambda o: o.X.double())
+    reg(c, "from_array", "coo", lambda b: dict(A=b.STM().double(), r=np.array([0])), lambda o, b: b.ttb.sptenmat.from_array(o.A, o.r, tshape=b.shape))
+    reg(c, "from_array", "ndarray", lambda b: dict(A=b.STM().double().toarray(), r=np.array([0]), cd=np.arange(1, b.N)), lambda o, b: b.ttb.sptenmat.from_array(o.A, o.r, o.cd, b.shape))
+    reg(c, "full", "default", XM, lambda o: o.X.full())
+    reg(c, "isequal", "sptenmat", lambda b: dict(X=b.STM(), Y=b.STM()), lambda o: o.X.isequal(o.Y), kind="scalar")
+    for nm in ("nnz", "order", "shape"):
+        reg(c, nm, "property", XM, lambda o, nm=nm: getattr(o.X, nm), kind="property")
+    reg(c, "norm", "default", XM, lambda o: o.X.norm(), kind="scalar")
+    reg(c, "to_sptensor", "default", XM, lambda o: o.X.to_sptensor())
+    reg(c, "to_sptensor", "permuted", lambda b: dict(X=b.S().to_sptenmat(np.array([1]))), lambda o: o.X.to_sptensor())
+    reg(c, "__neg__", "default", XM, lambda o: -o.X)
+    reg(c, "__pos__", "default", XM, lambda o: +o.X)
+
+    def setit(o, key, val):
+        o.X[key] = val
+        return None
+    reg(c, "__setitem__", "element", XM, lambda o: setit(o, (0, 0), 9.0), kind="inplace", recv="X")
+    reg(c, "__setitem__", "new-element", XM, lambda o: setit(o, (1, 1), 9.0), kind="inplace", recv="X")
+
+
+_sptenmat_table()
+
+
+# ---- sumtensor ------------------------------------------------------------------------------------------
+def _sumtensor_table():
+    c = "sumtensor"
+    XS = X("SUM")
+    reg(c, "__init__", "copy=True", lambda b: dict(p=[b.T(), b.K(), b.S(), b.TT()]), lambda o, b: b.ttb.sumtensor(o.p, copy=True))
+    reg(c, "__init__", "copy=False", lambda b: dict(p=[b.T(), b.K()]), lambda o, b: b.ttb.sumtensor(o.p, copy=False), kind="nocopy")
+    reg(c, "copy", "default", XS, lambda o: o.X.copy())
+    reg(c, "__deepcopy__", "default", XS, lambda o: _copy.deepcopy(o.X))
+    reg(c, "parts", "attr", XS, lambda o: o.X.parts, kind="attr")
+    reg(c, "double", "default", XS, lambda o: o.X.double())
+    reg(c, "full", "default", XS, lambda o: o.X.full())
+    reg(c, "full", "single-dense-part", lambda b: dict(X=b.ttb.sumtensor([b.T()])), lambda o: o.X.full())
+    reg(c, "to_tensor", "default", XS, lambda o: o.X.to_tensor())
+    reg(c, "to_tensor", "single-dense-part", lambda b: dict(X=b.ttb.sumtensor([b.T()])), lambda o: o.X.to_tensor())
+    reg(c, "innerprod", "tensor", lambda b: dict(X=b.SUM(), Y=b.T(1)), lambda o: o.X.innerprod(o.Y), kind="scalar")
+    reg(c, "innerprod", "ktensor", lambda b: dict(X=b.SUM(), Y=b.K(off=1)), lambda o: o.X.innerprod(o.Y), kind="scalar")
+    reg(c, "mttkrp", "list", lambda b: dict(X=b.SUM(), U=b.fm()), lambda o: o.X.mttkrp(o.U, 0))
+    reg(c, "mttkrp", "ktensor", lambda b: dict(X=b.SUM(), U=b.K(off=1)), lambda o, b: o.X.mttkrp(o.U, b.N - 1))
+    for nm in ("ndims", "order", "shape"):
+        reg(c, nm, "property", XS, lambda o, nm=nm: getattr(o.X, nm), kind="property")
+    reg(c, "norm", "default", XS, lambda o: o.X.norm(), kind="scalar")
+    reg(c, "ttv", "single", lambda b: dict(X=b.SUM(), v=b.vec(0)), lambda o: o.X.ttv(o.v, 0))
+    reg(c, "ttv", "all", lambda b: dict(X=b.SUM(), v=b.vecs()), lambda o: o.X.ttv(o.v), kind="scalar", shapes=NOSINGLE)
+    reg(c, "ttv", "exclude", lambda b: dict(X=b.SUM(), v=b.vecs(), ex=np.array([0])), lambda o: o.X.ttv(o.v, exclude_dims=o.ex), shapes=NOSINGLE)
+    reg(c, "__add__", "tensor", lambda b: dict(X=b.SUM(), Y=b.T(1)), lambda o: o.X + o.Y)
+    reg(c, "__add__", "ktensor", lambda b: dict(X=b.SUM(), Y=b.K(off=1)), lambda o: o.X + o.Y)
+    reg(c, "__add__", "list", lambda b: dict(X=b.SUM(), Y=[b.S(), b.TT()]), lambda o: o.X + o.Y)
+    reg(c, "__radd__", "tensor", lambda b: dict(X=b.SUM(), Y=b.T(1)), lambda o: o.Y + o.X)
+    reg(c, "__radd__", "sptensor", lambda b: dict(X=b.SUM(), Y=b.S(1)), lambda o: o.X.__radd__(o.Y))
+    reg(c, "__neg__", "default", XS, lambda o: -o.X)
+    reg(c, "__pos__", "default", XS, lambda o: +o.X)
+
+
+_sumtensor_table()
+
+# ---- top-level functions and algorithm entry points --------------------------------------------------
+def _pos(b, off=0):
+    """non-negative count-like dense data for cp_apr / gcp"""
+    return b.T(off)
+
+
+def _M(f, *a, **k):
+    """model part of an algorithm's (model, initial guess, info) result; the echoed guess/params are measured apart"""
+    res = f(*a, **k)
+    return (res[0], {kk: v for kk, v in res[2].items() if kk != "params"})
+
+
+def _E(f, *a, **k):
+    """echo part: the returned initial guess and the parameter record"""
+    res = f(*a, **k)
+    return (res[1], res[2].get("params"))
+
+
+def _toplevel_table():
+    c = "ttb"
+    ALG = [(2, 3, 4), (3, 2, 2)]
+    # cp_als ------------------------------------------------------------------------------------------
+    kw = dict(maxiters=2, printitn=0)
+    reg(c, "cp_als", "init=ktensor,dense", lambda b: dict(X=b.T(), init=b.K()), lambda o, b: _M(b.ttb.cp_als, o.X, 2, init=o.init, **kw), shapes=ALG)
+    reg(c, "cp_als", "init=ktensor,sparse", lambda b: dict(X=b.S(), init=b.K()), lambda o, b: _M(b.ttb.cp_als, o.X, 2, init=o.init, **kw), shapes=ALG)
+    reg(c, "cp_als", "init=ktensor,ttensor", lambda b: dict(X=b.TT(), init=b.K()), lambda o, b: _M(b.ttb.cp_als, o.X, 2, init=o.init, **kw), shapes=ALG)
+    reg(c, "cp_als", "init=ktensor,sumtensor", lambda b: dict(X=b.SUM(), init=b.K()), lambda o, b: _M(b.ttb.cp_als, o.X, 2, init=o.init, **kw), shapes=ALG)
+    reg(c, "cp_als", "init=ktensor,dimorder,optdims", lambda b: dict(X=b.T(), init=b.K(), do=np.arange(b.N)[::-1].copy(), od=np.array([0, 1])),
+        lambda o, b: _M(b.ttb.cp_als, o.X, 2, init=o.init, dimorder=o.do, optdims=o.od, **kw), shapes=ALG)
+    reg(c, "cp_als", "init=ktensor,nofixsigns", lambda b: dict(X=b.T(), init=b.K()), lambda o, b: _M(b.ttb.cp_als, o.X, 2, init=o.init, fixsigns=False, **kw), shapes=ALG)
+    reg(c, "cp_als", "init=nvecs", lambda b: dict(X=b.T()), lambda o, b: _M(b.ttb.cp_als, o.X, 2, init="nvecs", **kw), shapes=ALG)
+    reg(c, "cp_als", "init=random", lambda b: dict(X=b.T()), lambda o, b: _M(b.ttb.cp_als, o.X, 2, init="random", **kw), shapes=ALG)
+    # cp_apr ------------------------------------------------------------------------------------------
+    akw = dict(maxiters=2, printitn=0, printinneritn=0, maxinneriters=2)
+
+    def kz(b):      # initial guess with one zero row (mode 0, row 0) — legal input; PDNR/PQNR "fix" such rows
+        f = b.fm()
+        f[0][0, :] = 0.0
+        return b.ttb.ktensor(f, np.array([2.0, 3.0]))
+    def pq_data(b, sparse=False):
+        Xd = b.ttb.ktensor([np.array([[1.0, 1.0], [3.0, 4.0]]), np.array([[1.0, 6.0], [7.0, 8.0]])], np.array([1.0, 2.0])).full()
+        return Xd.to_sptensor() if sparse else Xd
+
+    def pq_init(b, zero=False):
+        f0 = np.array([[0.69646919, 0.28613933], [0.22685145, 0.55131477]])
+        f1 = np.array([[0.71946897, 0.42310646], [0.9807642, 0.68482974]])
+        if zero:
+            f0[0, :] = 0.0
+        return b.ttb.ktensor([f0, f1])
+    pkw = dict(maxiters=1, maxinneriters=1, printitn=0, printinneritn=0)
+    P22 = [(2, 2)]
+    reg(c, "cp_apr", "pqnr,init=ktensor,dense", lambda b: dict(X=pq_data(b), init=pq_init(b)), lambda o, b: _M(b.ttb.cp_apr, o.X, 2, algorithm="pqnr", init=o.init, **pkw), shapes=P22)
+    reg(c, "cp_apr", "pqnr,init=ktensor,sparse", lambda b: dict(X=pq_data(b, True), init=pq_init(b)), lambda o, b: _M(b.ttb.cp_apr, o.X, 2, algorithm="pqnr", init=o.init, **pkw), shapes=P22)
+    reg(c, "cp_apr", "pqnr,init=ktensor-with-zero-row", lambda b: dict(X=pq_data(b), init=pq_init(b, True)), lambda o, b: _M(b.ttb.cp_apr, o.X, 2, algorithm="pqnr", init=o.init, **pkw), shapes=P22)
+    reg(c, "cp_apr", "pqnr,init=random", lambda b: dict(X=pq_data(b)), lambda o, b: _M(b.ttb.cp_apr, o.X, 2, algorithm="pqnr", init="random", **pkw), shapes=P22)
+    for alg in ("mu", "pdnr"):
+        for data, mk in (("dense", lambda b: b.T()), ("sparse", lambda b: b.S())):
+            reg(c, "cp_apr", f"{alg},init=ktensor,{data}", lambda b, mk=mk: dict(X=mk(b), init=b.K()),
+                lambda o, b, alg=alg: _M(b.ttb.cp_apr, o.X, 2, algorithm=alg, init=o.init, **akw), shapes=ALG)
+        reg(c, "cp_apr", f"{alg},init=ktensor-with-zero-row", lambda b: dict(X=b.S(), init=kz(b)),
+            lambda o, b, alg=alg: _M(b.ttb.cp_apr, o.X, 2, algorithm=alg, init=o.init, **akw), shapes=ALG)
+        reg(c, "cp_apr", f"{alg},init=random", lambda b: dict(X=b.S()),
+            lambda o, b, alg=alg: _M(b.ttb.cp_apr, o.X, 2, algorithm=alg, init="random", **akw), shapes=ALG)
+    # gcp_opt -----------------------------------------------------------------------------------------
+    def gcp(b, X, init, stochastic=False, mask=None, echo=False):
+        from pyttb.gcp.optimizers import LBFGSB, Adam
+        from pyttb.gcp.fg_setup import Objectives
+        opt = Adam(max_iters=1, epoch_iters=2, printitn=0) if stochastic else LBFGSB(maxiter=2, iprint=-1)
+        return (_E if echo else _M)(b.ttb.gcp_opt, X, 2, Objectives.GAUSSIAN, opt, init=init, mask=mask, printitn=0)
+    reg(c, "gcp_opt", "lbfgsb,init=ktensor", lambda b: dict(X=b.T(), init=b.K()), lambda o, b: gcp(b, o.X, o.init), shapes=ALG)
+    reg(c, "gcp_opt", "lbfgsb,init=list", lambda b: dict(X=b.T(), init=b.fm()), lambda o, b: gcp(b, o.X, o.init), shapes=ALG)
+    reg(c, "gcp_opt", "lbfgsb,init=random", lambda b: dict(X=b.T()), lambda o, b: gcp(b, o.X, "random"), shapes=ALG)
+    reg(c, "gcp_opt", "lbfgsb,init=ktensor,mask", lambda b: dict(X=b.T(), init=b.K(), W=b.W()), lambda o, b: gcp(b, o.X, o.init, mask=o.W), shapes=ALG)
+    reg(c, "gcp_opt", "adam,init=ktensor,dense", lambda b: dict(X=b.T(), init=b.K()), lambda o, b: gcp(b, o.X, o.init, True), shapes=ALG)
+    # hosvd / tucker_als ------------------------------------------------------------------------------
+    reg(c, "hosvd", "tol", lambda b: dict(X=b.T()), lambda o, b: b.ttb.hosvd(o.X, 1e-4, verbosity=0), shapes=ALG)
+    reg(c, "hosvd", "ranks=ndarray", lambda b: dict(X=b.T(), ranks=np.array([1] * b.N)), lambda o, b: b.ttb.hosvd(o.X, 1e-4, verbosity=0, ranks=o.ranks), shapes=ALG)
+    reg(c, "hosvd", "ranks=list", lambda b: dict(X=b.T(), ranks=[1] * b.N), lambda o, b: b.ttb.hosvd(o.X, 1e-4, verbosity=0, ranks=o.ranks), shapes=ALG)
+    reg(c, "hosvd", "zero-ranks=ndarray(chosen by tol)", lambda b: dict(X=b.T(), ranks=np.zeros(b.N, dtype=int)), lambda o, b: b.ttb.hosvd(o.X, 1e-4, verbosity=0, ranks=o.ranks), shapes=ALG)
+    reg(c, "hosvd", "dimorder,not-sequential", lambda b: dict(X=b.T(), do=np.arange(b.N)[::-1].copy()), lambda o, b: b.ttb.hosvd(o.X, 1e-4, verbosity=0, dimorder=o.do, sequential=False), shapes=ALG)
+    tkw = dict(maxiters=2, printitn=0)
+    reg(c, "tucker_als", "init=list", lambda b: dict(X=b.T(), rank=np.array(b.ranks()), init=b.TT().factor_matrices), lambda o, b: _M(b.ttb.tucker_als, o.X, o.rank, init=o.init, **tkw), shapes=ALG)
+    reg(c, "tucker_als", "init=list,dimorder", lambda b: dict(X=b.T(), rank=np.array(b.ranks()), init=b.TT().factor_matrices, do=np.arange(b.N)[::-1].copy()),
+        lambda o, b: _M(b.ttb.tucker_als, o.X, o.rank, init=o.init, dimorder=o.do, **tkw), shapes=ALG)
+    reg(c, "tucker_als", "init=nvecs,int-rank", lambda b: dict(X=b.T()), lambda o, b: _M(b.ttb.tucker_als, o.X, 2, init="nvecs", **tkw), shapes=ALG)
+    reg(c, "tucker_als", "init=random", lambda b: dict(X=b.T(), rank=np.array(b.ranks())), lambda o, b: _M(b.ttb.tucker_als, o.X, o.rank, init="random", **tkw), shapes=ALG)
+    # the echoed initial guess / parameter record (second result and info["params"]) ---------------------
+    reg(c, "cp_als", "echo,init=ktensor", lambda b: dict(X=b.T(), init=b.K()), lambda o, b: _E(b.ttb.cp_als, o.X, 2, init=o.init, **kw), shapes=ALG)
+    reg(c, "cp_apr", "echo,init=ktensor", lambda b: dict(X=b.S(), init=b.K()), lambda o, b: _E(b.ttb.cp_apr, o.X, 2, algorithm="mu", init=o.init, **akw), shapes=ALG)
+    reg(c, "gcp_opt", "echo,init=list", lambda b: dict(X=b.T(), init=b.fm()), lambda o, b: gcp(b, o.X, o.init, echo=True), shapes=ALG)
+    reg(c, "tucker_als", "echo,init=list", lambda b: dict(X=b.T(), rank=np.array(b.ranks()), init=b.TT().factor_matrices), lambda o, b: _E(b.ttb.tucker_als, o.X, o.rank, init=o.init, **tkw), shapes=ALG)
+    # khatrirao and generators ------------------------------------------------------------------------
+    reg(c, "khatrirao", "two", lambda b: dict(A=b.fm()[0], Bm=b.fm()[1]), lambda o, b: b.ttb.khatrirao(o.A, o.Bm))
+    reg(c, "khatrirao", "list,reverse", lambda b: dict(U=b.fm()), lambda o, b: b.ttb.khatrirao(*o.U, reverse=True))
+    reg(c, "khatrirao", "single-matrix", lambda b: dict(A=b.fm()[0]), lambda o, b: b.ttb.khatrirao(o.A))
+    reg(c, "khatrirao", "single-column-vectors", lambda b: dict(A=b.vec(0).reshape(-1, 1), Bm=b.vec(1).reshape(-1, 1)), lambda o, b: b.ttb.khatrirao(o.A, o.Bm))
+    reg(c, "tendiag", "default", lambda b: dict(e=np.array([1.0, 2.0])), lambda o, b: b.ttb.tendiag(o.e))
+    reg(c, "tendiag", "shape", lambda b: dict(e=np.array([1.0, 2.0])), lambda o, b: b.ttb.tendiag(o.e, (3,) * b.N))
+    reg(c, "sptendiag", "default", lambda b: dict(e=np.array([1.0, 2.0])), lambda o, b: b.ttb.sptendiag(o.e))
+    reg(c, "sptendiag", "shape", lambda b: dict(e=np.array([1.0, 2.0])), lambda o, b: b.ttb.sptendiag(o.e, (3,) * b.N))
+    reg(c, "teneye", "default", lambda b: dict(), lambda o, b: b.ttb.teneye(2, 2), shapes=CUBE)
+    reg(c, "tenones", "default", lambda b: dict(shp=np.array(b.shape)), lambda o, b: b.ttb.tenones(o.shp))
+    reg(c, "tenzeros", "default", lambda b: dict(shp=np.array(b.shape)), lambda o, b: b.ttb.tenzeros(o.shp))
+    reg(c, "tenrand", "default", lambda b: dict(shp=np.array(b.shape)), lambda o, b: b.ttb.tenrand(o.shp))
+    reg(c, "sptenrand", "nonzeros", lambda b: dict(shp=np.array(b.shape)), lambda o, b: b.ttb.sptenrand(o.shp, nonzeros=3))
+    reg(c, "sptenrand", "density", lambda b: dict(shp=np.array(b.shape)), lambda o, b: b.ttb.sptenrand(o.shp, density=0.5))
+
+    def roundtrip(b, obj):
+        d = tempfile.mkdtemp(prefix="c05io")
+        fn = os.path.join(d, "x.tns")
+        try:
+            b.ttb.export_data(obj, fn)
+            return b.ttb.import_data(fn)
+        finally:
+            try:
+                os.remove(fn)
+            except OSError:
+                pass
+            os.rmdir(d)
+    for nm, mk in (("tensor", lambda b: b.T()), ("sptensor", lambda b: b.S()), ("ktensor", lambda b: b.K()), ("matrix", lambda b: b.fm()[0])):
+        reg(c, "export_data", nm, lambda b, mk=mk: dict(X=mk(b)), lambda o, b: roundtrip(b, o.X))
+        reg(c, "import_data", nm, lambda b, mk=mk: dict(X=mk(b)), lambda o, b: roundtrip(b, o.X))
+    skip(c, "ignore_warnings", "takes a boolean, returns None, touches only the warnings filter (no tensor operands)")
+
+
+_toplevel_table()
+
+# ---- pyttb_utils ------------------------------------------------------------------------------------------
+def _utils_table():
+    import pyttb.pyttb_utils as PU
+    c = "utils"
+    SH = [(2, 3, 4)]
+    reg(c, "gather_wrap_dims", "rdims", lambda b: dict(r=np.array([0])), lambda o, b: PU.gather_wrap_dims(b.N, o.r))
+    reg(c, "gather_wrap_dims", "rdims+cdims", lambda b: dict(r=np.array([0]), cd=np.arange(1, b.N)), lambda o, b: PU.gather_wrap_dims(b.N, o.r, o.cd))
+    reg(c, "gather_wrap_dims", "cdims-only", lambda b: dict(cd=np.arange(1, b.N)), lambda o, b: PU.gather_wrap_dims(b.N, cdims=o.cd))
+    reg(c, "gather_wrap_dims", "cyclic", lambda b: dict(r=np.array([1])), lambda o, b: PU.gather_wrap_dims(b.N, o.r, cdims_cyclic="fc"))
+    reg(c, "get_index_variant", "array", lambda b: dict(i=np.array([0, 1])), lambda o: PU.get_index_variant(o.i), kind="scalar", shapes=SH)
+    reg(c, "get_index_variant", "subscripts", lambda b: dict(i=b.subs()), lambda o: PU.get_index_variant(o.i), kind="scalar", shapes=SH)
+    # pass-through accessors: documented to hand back (a view of) their argument after validation
+    reg(c, "get_mttkrp_factors", "list", lambda b: dict(U=b.fm()), lambda o, b: PU.get_mttkrp_factors(o.U, 0, b.N), kind="nocopy")
+    reg(c, "get_mttkrp_factors", "ktensor", lambda b: dict(U=b.K()), lambda o, b: PU.get_mttkrp_factors(o.U, 0, b.N), kind="nocopy")
+    for nm in ("islogical", "isrow", "isvector"):
+        reg(c, nm, "array", lambda b: dict(a=b.vec(0).reshape(1, -1)), lambda o, nm=nm: getattr(PU, nm)(o.a), kind="scalar", shapes=SH)
+    reg(c, "np_to_python", "tuple-of-np-ints", lambda b: dict(a=np.array(b.shape)), lambda o: PU.np_to_python(tuple(o.a)), kind="scalar", shapes=SH)
+    reg(c, "parse_one_d", "ndarray", lambda b: dict(a=np.array([0, 1])), lambda o: PU.parse_one_d(o.a), kind="nocopy", shapes=SH)
+    reg(c, "parse_one_d", "list", lambda b: dict(a=[0, 1]), lambda o: PU.parse_one_d(o.a), shapes=SH)
+    reg(c, "parse_one_d", "2d-row", lambda b: dict(a=np.array([[0, 1]])), lambda o: PU.parse_one_d(o.a), kind="nocopy", shapes=SH)
+    reg(c, "parse_shape", "ndarray", lambda b: dict(a=np.array(b.shape)), lambda o: PU.parse_shape(o.a), kind="scalar")
+    reg(c, "parse_shape", "list", lambda b: dict(a=list(b.shape)), lambda o: PU.parse_shape(o.a), kind="scalar")
+    reg(c, "to_memory_order", "copy=False,matching", lambda b: dict(a=b.arr()), lambda o: PU.to_memory_order(o.a, "F"), kind="nocopy")
+    reg(c, "to_memory_order", "copy=False,converting", lambda b: dict(a=np.ascontiguousarray(b.arr())), lambda o: PU.to_memory_order(o.a, "F"), kind="nocopy", shapes=NOSINGLE)
+    reg(c, "to_memory_order", "copy=True,matching", lambda b: dict(a=b.arr()), lambda o: PU.to_memory_order(o.a, "F", copy=True))
+    reg(c, "to_memory_order", "copy=True,converting", lambda b: dict(a=np.ascontiguousarray(b.arr())), lambda o: PU.to_memory_order(o.a, "F", copy=True))
+    reg(c, "to_memory_order", "copy=True,coo", lambda b: dict(a=b.STM().double()), lambda o: PU.to_memory_order(o.a, "F", copy=True))
+    reg(c, "tt_dimscheck", "dims-array", lambda b: dict(d=np.array([0, b.N - 1])), lambda o, b: PU.tt_dimscheck(b.N, 2, dims=o.d))
+    reg(c, "tt_dimscheck", "all-dims-array", lambda b: dict(d=np.arange(b.N)), lambda o, b: PU.tt_dimscheck(b.N, b.N, dims=o.d))
+    reg(c, "tt_dimscheck", "exclude-array", lambda b: dict(e=np.array([0])), lambda o, b: PU.tt_dimscheck(b.N, b.N, exclude_dims=o.e))
+    reg(c, "tt_dimscheck", "none", lambda b: dict(), lambda o, b: PU.tt_dimscheck(b.N, b.N))
+    reg(c, "tt_ind2sub", "non-negative", lambda b: dict(i=np.array([0, 1, b.n - 1])), lambda o, b: PU.tt_ind2sub(b.shape, o.i))
+    reg(c, "tt_ind2sub", "negative", lambda b: dict(i=np.array([0, -1, -2])), lambda o, b: PU.tt_ind2sub(b.shape, o.i))
+    reg(c, "tt_ind2sub", "empty", lambda b: dict(i=np.array([], dtype=int)), lambda o, b: PU.tt_ind2sub(b.shape, o.i), kind="scalar")
+    reg(c, "tt_ind2sub", "C-order", lambda b: dict(i=np.array([0, 1, b.n - 1])), lambda o, b: PU.tt_ind2sub(b.shape, o.i, order="C"))
+    reg(c, "tt_sub2ind", "default", lambda b: dict(s=b.subs()), lambda o, b: PU.tt_sub2ind(b.shape, o.s))
+    reg(c, "tt_sub2ind", "C-order", lambda b: dict(s=b.subs()), lambda o, b: PU.tt_sub2ind(b.shape, o.s, order="C"))
+    reg(c, "tt_sub2ind", "empty", lambda b: dict(s=np.empty((0, b.N), dtype=int)), lambda o, b: PU.tt_sub2ind(b.shape, o.s), kind="scalar")
+    two = lambda b: dict(A=b.subs(), Bm=np.vstack([b.subs(1)[:2], b.subs()[:2]]))
+    for nm in ("tt_intersect_rows", "tt_setdiff_rows", "tt_union_rows"):
+        reg(c, nm, "default", two, lambda o, nm=nm: getattr(PU, nm)(o.A, o.Bm))
+        reg(c, nm, "empty-second", lambda b: dict(A=b.subs(), Bm=np.empty((0, b.N), dtype=int)), lambda o, nm=nm: getattr(PU, nm)(o.A, o.Bm))
+        reg(c, nm, "empty-first", lambda b: dict(A=np.empty((0, b.N), dtype=int), Bm=b.subs()), lambda o, nm=nm: getattr(PU, nm)(o.A, o.Bm))
+    reg(c, "tt_ismember_rows", "default", two, lambda o: PU.tt_ismember_rows(o.Bm, o.A))
+    reg(c, "tt_irenumber", "slices", lambda b: dict(t=b.S()), lambda o, b: PU.tt_irenumber(o.t, b.shape, (slice(None),) * b.N))
+    reg(c, "tt_irenumber", "array-range", lambda b: dict(t=b.S(), r=np.arange(b.shape[0])), lambda o, b: PU.tt_irenumber(o.t, b.shape, (o.r,) + (slice(None),) * (b.N - 1)))
+    reg(c, "tt_renumber", "slices", lambda b: dict(s=b.subs()), lambda o, b: PU.tt_renumber(o.s, b.shape, (slice(None),) * b.N))
+    reg(c, "tt_renumber", "list-range", lambda b: dict(s=b.subs(), r=list(range(b.shape[0]))[::-1]), lambda o, b: PU.tt_renumber(o.s, b.shape, (o.r,) + (slice(None),) * (b.N - 1)))
+    reg(c, "tt_renumber", "partial-slice", lambda b: dict(s=b.subs()), lambda o, b: PU.tt_renumber(o.s, b.shape, (slice(None),) * (b.N - 1) + (slice(1, None),)))
+    reg(c, "tt_renumber", "empty-subs", lambda b: dict(s=np.empty((0, b.N), dtype=int), r=[0]), lambda o, b: PU.tt_renumber(o.s, b.shape, (o.r,) + (slice(None),) * (b.N - 1)), kind="scalar")
+    reg(c, "tt_renumberdim", "array-range", lambda b: dict(i=b.subs()[:, 0].copy(), r=np.arange(b.shape[0])), lambda o, b: PU.tt_renumberdim(o.i, b.shape[0], o.r))
+    reg(c, "tt_renumberdim", "slice", lambda b: dict(i=b.subs()[:, 0].copy()), lambda o, b: PU.tt_renumberdim(o.i, b.shape[0], slice(0, 2)))
+    reg(c, "tt_sizecheck", "tuple", lambda b: dict(), lambda o, b: PU.tt_sizecheck(b.shape), kind="scalar")
+    reg(c, "tt_sizecheck", "ndarray", lambda b: dict(a=np.array(b.shape)), lambda o: PU.tt_sizecheck(o.a), kind="scalar")
+    reg(c, "tt_subscheck", "default", lambda b: dict(s=b.subs()), lambda o: PU.tt_subscheck(o.s), kind="scalar")
+    reg(c, "tt_valscheck", "default", lambda b: dict(v=b.vals()), lambda o: PU.tt_valscheck(o.v), kind="scalar")
+    reg(c, "tt_subsubsref", "array", lambda b: dict(a=b.vec(0)), lambda o: PU.tt_subsubsref(o.a, None), kind="nocopy")   # documented stub: returns obj
+    reg(c, "tt_subsubsref", "size-1", lambda b: dict(a=np.array([3.0])), lambda o: PU.tt_subsubsref(o.a, None), kind="scalar", shapes=SH)
+
+
+_utils_table()
+
 #TABLE-SECTIONS
 
 
@@ -182,6 +911,8 @@ def public_surface():
                 names.append(d)
         out += [(cn, n) for n in names]
         out.append((cn, "__init__"))
+        if cn == "sumtensor":
+            out.append((cn, "parts"))      # instance attribute (no slot): not visible in dir(class)
     for n in sorted(dir(ttb)):
         a = getattr(ttb, n)
         if n.startswith("_") or isinstance(a, types.ModuleType) or isinstance(a, type) or not callable(a):
@@ -233,9 +964,16 @@ def find_entry(c):
     return None
 
 
+def _invoke(f, ops, b):
+    nreq = f.__code__.co_argcount - len(f.__defaults__ or ())
+    return f(ops, b) if nreq == 2 else f(ops)
+
+
 def run_impl(c):
+    import logging
     import warnings
     warnings.filterwarnings("ignore")
+    logging.disable(logging.CRITICAL)
     if c.op in ("unlisted", "stale"):
         return {"unlisted": True}
     e = find_entry(c)
@@ -243,9 +981,12 @@ def run_impl(c):
         return {"exc": "NoEntry"}
     b = B(c.args["shape"], c.args.get("seed", 0))
     np.random.seed(12345)
+    import contextlib
+    import io
     try:
-        o = U.measure(np, lambda: AD(e["build"](b)), lambda ops: e["call"](ops, b) if e["call"].__code__.co_argcount == 2 else e["call"](ops),
-                      receiver=e["recv"])
+        with contextlib.redirect_stdout(io.StringIO()):
+            o = U.measure(np, lambda: AD(e["build"](b)), lambda ops: _invoke(e["call"], ops, b),
+                          receiver=e["recv"])
     except Exception as ex:
         import traceback
         return {"exc": type(ex).__name__, "msg": str(ex)[:300], "tb": traceback.format_exc()[-600:]}
@@ -302,5 +1043,61 @@ def oracle(c, o):
 
 TRIGGERS = {}
 WITNESSES = {}
+
+# ------------------------------------------------------------------------------------------------------------
+# known findings: trigger = exactly (operation, parameter class); witness = minimal replay on pyttb
+# ------------------------------------------------------------------------------------------------------------
+def _trig(*pairs):
+    allowed = set(pairs)
+    return lambda c: (c.op, c.args.get("pclass")) in allowed
+
+
+FINDING_CLASSES = {
+    "A-18": [("tensor.permute", "identity"), ("tensor.permute", "singleton-move")],
+    "A-19": [("tensor.reshape", "same-shape"), ("tensor.reshape", "to-vector"), ("tensor.reshape", "to-matrix")],
+    "A-20": [("ktensor.ttv", "single"), ("ktensor.ttv", "single,last"), ("ktensor.ttv", "dims-array"), ("ktensor.ttv", "exclude"),
+             ("sumtensor.ttv", "single"), ("sumtensor.ttv", "exclude")],
+    "A-21": [("utils.tt_ind2sub", "negative")],
+    "A-22": [("ktensor.fixsigns", "other")],
+    "A-23": [("ttb.cp_apr", "pdnr,init=ktensor-with-zero-row"), ("ttb.cp_apr", "pqnr,init=ktensor-with-zero-row")],
+    "A-24": [("ttb.gcp_opt", "lbfgsb,init=ktensor"), ("ttb.gcp_opt", "lbfgsb,init=ktensor,mask"), ("ttb.gcp_opt", "adam,init=ktensor,dense")],
+    "A-25": [("ttb.hosvd", "zero-ranks=ndarray(chosen by tol)")],
+    "A-26": [("sumtensor.__add__", "tensor"), ("sumtensor.__add__", "ktensor"), ("sumtensor.__add__", "list"),
+             ("sumtensor.__radd__", "tensor"), ("sumtensor.__radd__", "sptensor")],
+    "C05-N01": [("sptensor.find", "default")],
+    "C05-N02": [("sptensor.spmatrix", "default")],
+    "C05-N03": [("sptensor.__setitem__", "slice,sptensor")],
+    "C05-N04": [("ktensor.tolist", "mode"), ("ktensor.tolist", "mode,unit-weights"), ("ktensor.tolist", "all,unit-weights")],
+    "C05-N05": [("tenmat.__getitem__", "row"), ("tenmat.__getitem__", "full-slice")],
+    "C05-N06": [("sptenmat.double", "default")],
+    "C05-N07": [("ttb.khatrirao", "single-matrix")],
+    "C05-N08": [("ttb.cp_als", "echo,init=ktensor"), ("ttb.cp_apr", "echo,init=ktensor"), ("ttb.tucker_als", "echo,init=list")],
+    "C05-N09": [("utils.tt_renumber", "slices"), ("utils.tt_renumber", "list-range"), ("utils.tt_renumber", "partial-slice")],
+}
+TRIGGERS = {"c05_" + fid.replace("-", "_").lower(): _trig(*pairs) for fid, pairs in FINDING_CLASSES.items()}
+
+
+def _witness(fid):
+    """replay every (op, parameter class) of the finding on shape-default operands; describe what still fails"""
+    def run():
+        import pyttb  # noqa: F401  (vcheck.import_pyttb() has put PYTTB_SRC first on sys.path)
+        bad = []
+        for op, pclass in FINDING_CLASSES[fid]:
+            ns, name = op.split(".", 1)
+            e = next(x for x in TABLE[(ns, name)] if x["pclass"] == pclass)
+            shp = (e["shapes"] or SHAPES)[0]
+            c = Case(op, {"pclass": pclass, "shape": list(shp), "seed": 0, "kind": e["kind"]})
+            o = run_impl(c)
+            if "exc" in o:
+                bad.append(f"{op}[{pclass}] raised {o['exc']}")
+                continue
+            why = oracle(c, o)
+            if why:
+                bad.append(f"{op}[{pclass}] shape {tuple(shp)}: {why[:160]}")
+        return "; ".join(bad) if bad else None
+    return run
+
+
+WITNESSES = {fid: _witness(fid) for fid in FINDING_CLASSES}
 
 #FINDINGS-SECTION
